@@ -256,6 +256,23 @@ def check(tier):
                     dist["ast"] += 1
                 except ValueError as e:
                     problems.append(("tree-shape", s, le, str(e)))
+            # the same stream with REPEATED lexemes (every token of a kind spelled alike): each leaf value must still be the
+            # one of its own token, with its own position (leaves reach the callback in source order)
+            rep_toks = [[T.terms[a], "same_%s" % T.terms[a]] for a in s]
+            rr = hook.call({"op": "parse_trace", "mode": "eval", "tokens": rep_toks})
+            k_ = 0
+            for e_ in rr.get("log", []):
+                for v_, pos_ in e_[2]:
+                    if isinstance(v_, str) and v_.startswith("#"):
+                        continue
+                    if k_ >= len(rep_toks) or v_ != rep_toks[k_][1] or pos_ != [k_, 1, k_ + 1]:
+                        problems.append(("eval-leaf", s, le, {"leaf_number": k_, "value": v_, "position": pos_,
+                                                              "expected_position": [k_, 1, k_ + 1], "note": "all tokens of a kind share one lexeme"}))
+                        k_ = 10 ** 9
+                        break
+                    k_ += 1
+                if k_ >= 10 ** 9:
+                    break
             re_ = hook.call({"op": "parse_trace", "mode": "eval", "tokens": fake(s)})
             if re_.get("error") is not None or re_.get("nil_result"):
                 problems.append(("eval-mode-failed", s, le, re_))
